@@ -10,6 +10,7 @@ import (
 	"github.com/apache/skywalking-banyandb/pkg/logger"
 	"github.com/apache/skywalking-banyandb/pkg/verif/ev"
 	"github.com/apache/skywalking-banyandb/pkg/verif/par"
+	"github.com/apache/skywalking-banyandb/pkg/verif/racep"
 	"github.com/apache/skywalking-banyandb/pkg/verif/sched"
 )
 
@@ -19,6 +20,9 @@ type family struct {
 	Setup     func(sc scenario, seq *int) sched.Harness
 	Name      string
 	Scenarios []scenario
+	// RaceOK: the family's own bookkeeping is guarded by sched.Own, so its thread bodies may run detached in the
+	// free-running -race pass (mc/racep).
+	RaceOK bool
 }
 
 type scenario struct {
@@ -161,6 +165,30 @@ func main() {
 		return
 	}
 	var err error
+	if os.Getenv("VERIF_PHASE") == "race" {
+		// the -race build: the same thread bodies, detached, as plain goroutines (racep.Pass reads the detector's log)
+		base, err = os.MkdirTemp("/dev/shm", "c19race-")
+		if err != nil {
+			panic(err)
+		}
+		defer os.RemoveAll(base)
+		iters := 25
+		if thorough {
+			iters = 200
+		}
+		var scs []scenario
+		for _, sc := range allScenarios() {
+			if only := ev.Arg("--scenario"); only != "" && only != sc.Name && only != sc.Family+"/"+sc.Name && only != sc.Family {
+				continue
+			}
+			if familyOf(sc.Family).RaceOK {
+				scs = append(scs, sc)
+			}
+		}
+		seq := 0
+		racep.Phase(iters, 6*time.Minute, len(scs), func(i int) sched.Harness { return setup(scs[i], &seq) })
+		return
+	}
 	if wi, wn, ok := par.Worker(); ok {
 		base, err = os.MkdirTemp("/dev/shm", "c19-")
 		if err != nil {
@@ -223,6 +251,7 @@ func main() {
 		r.Sample(map[string]any{"scenario": sc.Name, "threads": sc.Roles, "executions": perScen[sc.Name],
 			"initial_state": "file parts p1,p2 + memory part p3; introducer = introducePart(b4); flush; merge(all file parts); gc after each"})
 	}
+	racep.Pass(r, "c19")
 	r.Set("states", execs)
 	r.Set("transitions", execs)
 	r.Set("traces_validated_against_impl", execs)
@@ -234,7 +263,7 @@ func main() {
 	r.Set("outcomes", outcomes)
 	r.Set("max_points_per_execution", maxPts)
 	r.Set("rule", "one execution = one complete schedule (scheduling points = every Lock/RLock/atomic op of measure/snapshot.go, part.go, introducer.go, tstable.go, plus spawned part-removal goroutines) of a 3-thread scenario on a real measure tsTable; stateless search: states/transitions count executions; distinct_nontrivial = scenarios, all of which have a query overlapping snapshot replacement or close")
-	r.Assume("sequential consistency at hooked sync/atomic operations; unsynchronised accesses are invisible to the cooperative scheduler")
+	r.Assume("sequential consistency at hooked sync/atomic operations; unsynchronised accesses are invisible to the cooperative scheduler (covered separately, by sampling, by the free-running -race pass of the measure and storage families: metrics.race_pass)")
 	r.Assume("introducer/flusher/merger loops are replaced by one harness thread calling the loops' step functions in loop order (channels are not hooked)")
 	r.Finish()
 }
@@ -251,6 +280,9 @@ func replay(p string) {
 	if err := json.Unmarshal(b, &a); err != nil {
 		fmt.Println(err)
 		os.Exit(2)
+	}
+	if racep.Replay(b, "c19") {
+		return
 	}
 	base, _ = os.MkdirTemp("/dev/shm", "c19r-")
 	defer os.RemoveAll(base)
